@@ -135,6 +135,8 @@ class Engine:
 
     # ---------------------------------------------------------------- clause slicing
     def active(self, cl: Clause) -> bool:
+        if cl.serves and all(str(x).startswith('A-') for x in cl.serves):
+            return False          # an ASSUMPTION about code outside the verifier's reach (user run()): assumed at call sites, never proved
         return self.prop is None or not cl.serves or self.prop in cl.serves
 
     # ---------------------------------------------------------------- solver
@@ -211,6 +213,9 @@ class Engine:
         """Emit (and immediately decide) an obligation; the goal is assumed afterwards."""
         full = f'{self.cur_fkey}/{name}'
         if self.trial:
+            st.assume(goal)
+            return True
+        if serves and all(str(x).startswith('A-') for x in serves):
             st.assume(goal)
             return True
         if self.prop is not None and serves and self.prop not in serves:
@@ -402,12 +407,14 @@ class Engine:
                     return self.apply_func(f'{t.name}.{name}', [base], vt, [t])
                 if name in rec.pure:
                     return self.eval_spec_in(st, rec.pure[name], {'self': base}, heap=heap)
-                if any(p.startswith(name + '.') for p in rec.pure):
+                if any(p.startswith(name + '.') for p in list(rec.pure) + list(rec.obj_attrs)):
                     return SV(T('ns', (t,), name), base.z)
             raise Unsupported(f'attribute .{name} on {t}')
         if t.k == 'ns':
             rec = self.R.records[t.args[0].name]
             full = f'{t.name}.{name}'
+            if full in rec.obj_attrs:
+                return SV(OBJ(rec.obj_attrs[full]), f'@{t.args[0].name}.{full}')
             if full in rec.pure:
                 return self.eval_spec_in(st, rec.pure[full], {'self': SV(t.args[0], base.z)}, heap=heap)
             if any(p.startswith(full + '.') for p in rec.pure):
@@ -866,6 +873,8 @@ class Evaluator:
                 return SV(a.t, self.ctx.set_diff(et, a.z, b.z))
         if a.t.k == 'str' and b.t.k == 'str' and op == 'Add':
             return SV(STR, z3.Concat(a.z, b.z))
+        if op == 'Sub' and a.t == U('Time') and b.t == U('Time'):
+            return self.eng.apply_func('time_diff', [a, b], U('Dur'), [U('Time'), U('Time')])
         if op == 'Div' and a.t == U('Path') and b.t.k == 'str':
             return self.eng.apply_func('pjoin', [a, b], U('Path'), [U('Path'), STR])
         raise Unsupported(f'binary {op} on {a.t}, {b.t}')
